@@ -2,14 +2,19 @@ package main
 
 import (
 	"fmt"
+	"os"
+	"sort"
+	"strings"
 
 	"github.com/inspirer/textmapper/util/container"
+	"github.com/inspirer/textmapper/util/set"
 )
 
 func init() { props["C25"] = c25 }
 
 func c25(c *Ctx) {
-	c.Rule = "random finite/co-finite sets over universes 0..u (u<=12, densities 0..1, plus empty/full edge cases) fed to container.Merge/Intersect; non-trivial = both operands non-empty; distinct by (op, operands)"
+	c25Closure(c)
+	c.Rule += " || SET ALGEBRA: random finite/co-finite sets over universes 0..u (u<=12, densities 0..1, plus empty/full edge cases) fed to container.Merge/Intersect; non-trivial = both operands non-empty; distinct by (op, operands)"
 	n := c.N(4000, 200000)
 	for i := 0; i < n; i++ {
 		u := 1 + c.Rng.Intn(12)
@@ -52,6 +57,360 @@ func c25(c *Ctx) {
 				c.Violate(fmt.Sprintf("element %d: membership in result is %v, set semantics say %v", v, in(res), want), line)
 				break
 			}
+		}
+	}
+}
+
+// ---------------------------------------------------------------------------------------------
+// set-equation closure (util/set/closure.go)
+
+// c25Sys is one equation system as the public API builds it.
+type c25Sys struct {
+	ops   []int   // 0 union (Add), 1 intersection, 2 complement
+	edges [][]int // successors, in the order the API calls add them
+	inits [][]int // the slice given to Add
+}
+
+func (s *c25Sys) line() string {
+	in := make([]string, len(s.inits))
+	for i, r := range s.inits {
+		in[i] = ints(r)
+	}
+	ii := "_"
+	if len(in) > 0 {
+		ii = strings.Join(in, ";")
+	}
+	return fmt.Sprintf("closure %s %s %s", ints(s.ops), intss(s.edges), ii)
+}
+
+// run builds the system through NewClosure/Add/Include/Intersect/Complement and calls Compute.
+func (s *c25Sys) run(bufSize int) (answer string, sets []container.IntSet, isErr bool) {
+	defer func() {
+		if r := recover(); r != nil {
+			answer, sets, isErr = "panic", nil, false
+		}
+	}()
+	cl := set.NewClosure(bufSize)
+	fs := make([]*set.FutureSet, len(s.ops))
+	for i, op := range s.ops {
+		switch op {
+		case 0:
+			fs[i] = cl.Add(append([]int(nil), s.inits[i]...))
+		case 1:
+			var args []*set.FutureSet
+			for _, e := range s.edges[i] {
+				args = append(args, fs[e])
+			}
+			fs[i] = cl.Intersect(args...)
+		case 2:
+			fs[i] = cl.Complement(fs[s.edges[i][0]], nil)
+		}
+	}
+	for i, op := range s.ops {
+		if op == 0 {
+			for _, e := range s.edges[i] {
+				fs[i].Include(fs[e])
+			}
+		}
+	}
+	err := cl.Compute()
+	if err != nil {
+		idx := map[*set.FutureSet]int{}
+		for i, f := range fs {
+			idx[f] = i
+		}
+		seen := map[int]bool{}
+		var bad []int
+		for _, f := range err.(set.ClosureError) {
+			if !seen[idx[f]] {
+				seen[idx[f]] = true
+				bad = append(bad, idx[f])
+			}
+		}
+		sort.Ints(bad)
+		return "error " + ints(bad), nil, true
+	}
+	parts := make([]string, len(fs))
+	for i, f := range fs {
+		parts[i] = b2s(f.IntSet.Inverse) + ":" + ints(f.IntSet.Set)
+		sets = append(sets, f.IntSet)
+	}
+	if len(parts) == 0 {
+		return "ok _", sets, false
+	}
+	return "ok " + strings.Join(parts, ";"), sets, false
+}
+
+// oracle: brute force over the universe 0..u (u itself is never mentioned: it stands for every
+// unmentioned integer). Returns (error expected, least solution as bit masks per node).
+func (s *c25Sys) oracle(u int) (bool, []uint32) {
+	n := len(s.ops)
+	reach := make([][]bool, n)
+	for i := range reach {
+		reach[i] = make([]bool, n)
+		for _, e := range s.edges[i] {
+			reach[i][e] = true
+		}
+	}
+	for k := 0; k < n; k++ {
+		for i := 0; i < n; i++ {
+			for j := 0; j < n; j++ {
+				if reach[i][k] && reach[k][j] {
+					reach[i][j] = true
+				}
+			}
+		}
+	}
+	for v := 0; v < n; v++ {
+		if s.ops[v] == 2 && reach[v][v] {
+			return true, nil
+		}
+	}
+	full := uint32(1)<<uint(u+1) - 1
+	val := make([]uint32, n)
+	done := make([]bool, n)
+	same := func(a, b int) bool { return a == b || (reach[a][b] && reach[b][a]) }
+	for left := n; left > 0; {
+		// pick a node whose component only depends on finished nodes
+		pick := -1
+		for v := 0; v < n && pick < 0; v++ {
+			if done[v] {
+				continue
+			}
+			ok := true
+			for w := 0; w < n; w++ {
+				if !done[w] && !same(v, w) && reach[v][w] {
+					ok = false
+				}
+			}
+			if ok {
+				pick = v
+			}
+		}
+		var comp []int
+		for w := 0; w < n; w++ {
+			if same(pick, w) {
+				comp = append(comp, w)
+			}
+		}
+		for _, v := range comp {
+			val[v] = 0
+			if s.ops[v] == 0 {
+				for _, x := range s.inits[v] {
+					val[v] |= 1 << uint(x)
+				}
+			}
+		}
+		for changed := true; changed; {
+			changed = false
+			for _, v := range comp {
+				var nv uint32
+				switch s.ops[v] {
+				case 0:
+					nv = val[v]
+					for _, e := range s.edges[v] {
+						nv |= val[e]
+					}
+				case 1:
+					nv = full
+					for _, e := range s.edges[v] {
+						nv &= val[e]
+					}
+				case 2:
+					nv = full &^ val[s.edges[v][0]]
+				}
+				if nv != val[v] {
+					val[v] = nv
+					changed = true
+				}
+			}
+		}
+		for _, v := range comp {
+			done[v] = true
+			left--
+		}
+	}
+	return false, val
+}
+
+func c25Mask(s container.IntSet, u int) uint32 {
+	var m uint32
+	for _, x := range s.Set {
+		if x >= 0 && x <= u {
+			m |= 1 << uint(x)
+		}
+	}
+	if s.Inverse {
+		m = (uint32(1)<<uint(u+1) - 1) &^ m
+	}
+	return m
+}
+
+// c25AliasWitness: ~{3} & {1,2,3} with a reuse buffer large enough to hold the operands.
+func c25AliasWitness() (*c25Sys, int) {
+	return &c25Sys{ops: []int{0, 0, 2, 1}, edges: [][]int{nil, nil, {0}, {2, 1}}, inits: [][]int{{3}, {1, 2, 3}, nil, nil}}, 10
+}
+
+func c25GenSys(c *Ctx, u int) *c25Sys {
+	r := c.Rng
+	var n int
+	switch k := r.Intn(20); {
+	case k == 0:
+		n = r.Intn(2) // 0 or 1 node
+	case k <= 2:
+		n = 2
+	default:
+		n = 3 + r.Intn(10)
+	}
+	s := &c25Sys{ops: make([]int, n), edges: make([][]int, n), inits: make([][]int, n)}
+	pInter := []float64{0, 0.15, 0.3}[r.Intn(3)]
+	pCompl := []float64{0, 0.1, 0.25}[r.Intn(3)]
+	for i := 0; i < n; i++ {
+		x := r.Float64()
+		switch {
+		case i > 0 && x < pInter:
+			s.ops[i] = 1
+			k := []int{0, 1, 2, 2, 2, 3, 3, 4}[r.Intn(8)]
+			for j := 0; j < k; j++ {
+				s.edges[i] = append(s.edges[i], r.Intn(i))
+			}
+		case i > 0 && x < pInter+pCompl:
+			s.ops[i] = 2
+			s.edges[i] = []int{r.Intn(i)}
+		default:
+			s.ops[i] = 0
+			s.inits[i] = sortedSubset(r, u, []float64{0, 0.15, 0.4, 0.8}[r.Intn(4)])
+		}
+	}
+	// Include edges of union nodes: forward (acyclic) and backward (cycles through later nodes)
+	dens := []float64{0.05, 0.15, 0.3}[r.Intn(3)]
+	back := []float64{0, 0.1, 0.3}[r.Intn(3)]
+	for i := 0; i < n; i++ {
+		if s.ops[i] != 0 {
+			continue
+		}
+		for j := 0; j < n; j++ {
+			p := dens
+			if j >= i {
+				p = back
+			}
+			if r.Float64() < p {
+				s.edges[i] = append(s.edges[i], j)
+			}
+		}
+	}
+	return s
+}
+
+func c25Closure(c *Ctx) {
+	findings := os.Getenv("VERIF_FINDINGS") != ""
+	c.Rule = "CLOSURE: random equation systems built through the public API of util/set (0-12 nodes, mostly 3-12; Add with random subsets of 0..u-1, u<=8; " +
+		"Intersect of 0-4 earlier nodes; Complement of an earlier node; Include edges forward and backward so that cycles run through unions, intersections and complements; " +
+		"single-node, two-node and empty systems) run through the real NewClosure(0)/Compute and compared with the mirror; every system is also solved by a brute-force oracle " +
+		"(Warshall reachability, components in dependency order, Kleene iteration on bit masks over 0..u where u stands for all unmentioned integers) and run a second time with " +
+		"NewClosure(u+1) (storage reuse); non-trivial = at least 3 nodes and one dependency cycle or intersection/complement node; distinct by system."
+	// probe: storage reuse in slowClosure
+	w, wu := c25AliasWitness()
+	_, wsets, _ := w.run(wu)
+	aliasDefect := len(wsets) != 4 || c25Mask(wsets[3], 4) != 0b00110
+	c.Extra["closure_alias_probe_failed"] = aliasDefect
+	if aliasDefect {
+		c.Notes = append(c.Notes, "alias probe FAILED on the real set.Closure: NewClosure(10), ~{3} & {1,2,3} = "+fmt.Sprint(wsets[len(wsets)-1])+
+			" (expected [1 2]); systems with an intersection node are run with a reuse buffer only under VERIF_FINDINGS=1 [C25-closure-buf-alias]")
+		c.Rule += " AVOIDED CLASS (known defect [C25-closure-buf-alias], probe failed): NewClosure(bufSize>0) on systems whose result differs from NewClosure(0), " +
+			"i.e. intersection nodes whose running result is co-finite and lives in the reuse buffer; such runs are only counted. Also avoided: a single-node system " +
+			"consisting of Intersect() alone (Compute does nothing below two nodes; finding [C25-single-node])."
+		if findings {
+			c.Violate("[C25-closure-buf-alias] slowClosure intersects into the reuse buffer that holds its own left operand: NewClosure(10); x=Add{3}; y=Add{1,2,3}; Intersect(Complement(x), y) = "+
+				fmt.Sprint(wsets[len(wsets)-1])+", set semantics say [1 2]", "[C25-closure-buf-alias] "+w.line()+" bufSize=10")
+		}
+	}
+	n := c.N(3000, 120000)
+	for i := 0; i < n; i++ {
+		u := 1 + c.Rng.Intn(8)
+		s := c25GenSys(c, u)
+		if len(s.ops) == 1 && s.ops[0] != 0 {
+			continue
+		}
+		line := s.line()
+		ans, sets, isErr := s.run(0)
+		nontrivial := false
+		wantErr, least := s.oracle(u)
+		hasCycle := wantErr
+		special := false
+		for v, op := range s.ops {
+			if op != 0 {
+				special = true
+			}
+			for _, e := range s.edges[v] {
+				if e == v {
+					hasCycle = true
+				}
+			}
+		}
+		if len(s.ops) >= 3 && (special || hasCycle) {
+			nontrivial = true
+		}
+		key := ""
+		if nontrivial {
+			key = line
+		}
+		switch {
+		case ans == "panic":
+			c.Count("closure panic")
+		case isErr:
+			c.Count("closure error")
+		case special:
+			c.Count(fmt.Sprintf("closure ok with inter/compl n=%d", min(len(s.ops)/4*4, 12)))
+		default:
+			c.Count("closure ok unions only")
+		}
+		c.Case(line, ans, key)
+		// oracle 1: brute force
+		check := func(tag string, ans string, sets []container.IntSet, isErr bool, bufSize int) bool {
+			in := fmt.Sprintf("%s%s bufSize=%d", tag, line, bufSize)
+			if ans == "panic" {
+				c.Violate("Compute panics", in)
+				return false
+			}
+			if isErr != wantErr {
+				c.Violate(fmt.Sprintf("error reported = %v, but a complement node reaches itself = %v", isErr, wantErr), in)
+				return false
+			}
+			if isErr {
+				return true
+			}
+			for v := range s.ops {
+				if got := c25Mask(sets[v], u); got != least[v] {
+					c.Violate(fmt.Sprintf("node %d = %v, i.e. %b over 0..%d, but the least solution is %b", v, sets[v], got, u, least[v]), in)
+					return false
+				}
+			}
+			return true
+		}
+		if len(s.ops) >= 2 || len(s.ops) == 0 || s.ops[0] == 0 {
+			check("", ans, sets, isErr, 0)
+		}
+		// oracle 2: same system with storage reuse
+		ans2, sets2, isErr2 := s.run(u + 1)
+		if ans2 != ans {
+			if aliasDefect && !findings {
+				c.Count("closure bufSize>0 differs (avoided class)")
+			} else {
+				check("[C25-closure-buf-alias] ", ans2, sets2, isErr2, u+1)
+			}
+		} else {
+			c.Count("closure bufSize>0 agrees")
+		}
+	}
+	if findings {
+		one := &c25Sys{ops: []int{1}, edges: [][]int{nil}, inits: [][]int{nil}}
+		ans, _, _ := one.run(0)
+		two := &c25Sys{ops: []int{1, 0}, edges: [][]int{nil, nil}, inits: [][]int{nil, nil}}
+		ans2, _, _ := two.run(0)
+		if ans != "ok 1:-" {
+			c.Violate("[C25-single-node] Compute does nothing on a closure with fewer than two nodes: Intersect() alone stays "+ans+
+				" while the same node in a two-node closure becomes "+ans2, "[C25-single-node] "+one.line())
 		}
 	}
 }
